@@ -37,6 +37,7 @@ type Scope struct {
 	closeStack string
 	mu         sync.Mutex
 	parent     app.Scope
+	registered bool
 	sid        string
 	wg         sync.WaitGroup
 }
@@ -134,7 +135,7 @@ func (scp *Scope) Close() (err error) {
 
 func (scp *Scope) close() {
 	scp.appendError(scp.EventScope.Trigger(app.AfterCloseEvent, scp))
-	if scp.parent != nil {
+	if scp.parent != nil && scp.registered {
 		scp.parent.DoneTask()
 	}
 	scp.DataScope = nil
